@@ -2195,6 +2195,16 @@ def reorder_batch(rnd, batch, n):
         sh = list(as_)
         rnd.shuffle(sh)
         out.append({"m": q["m"], "cs": q["cs"], "as": sh})
+        if q["m"] in ("select1", "select0", "select"):
+            # (large, then small) occurrence indices inside one sampling group (1024 for the bit structures, 8192 for
+            # the quad ones), far enough apart to lie in different blocks: a cursor or hint left by the first query
+            # must not influence the second
+            g = 8192 if q["m"] == "select" else 1024
+            pairs = []
+            for base in (0, g, 2 * g, 5 * g):
+                for (L, S) in ((g - 124, g // 3), (g - 24, g // 2 + 88), (2 * g // 3, g // 10), (g - 1, g // 2), (g // 2, 3)):
+                    pairs += [base + L, base + S]
+            out.append({"m": q["m"], "cs": q["cs"], "as": pairs})
         if q["m"] in ("select1", "select0", "select", "rank1", "rank0", "rank", "get"):
             # many random arguments in random order: pairs (large, then small) inside one sampling bucket
             out.append({"m": q["m"], "cs": q["cs"], "as": [rnd.randrange(0, n + 1) for _ in range(80)]})
